@@ -32,6 +32,7 @@ type TimerCase struct {
 	HostClk  bool    `json:"hostClock"`
 	Proc     bool    `json:"process"` // (c) a process with a timer catch event
 	PreTask  bool    `json:"preTask"`
+	NoSettle bool    `json:"noSettle"` // the clock is moved without waiting for the timer goroutines to settle (arming races the jumps)
 	def      *schema.TimerEventDefinition
 	defs     *schema.Definitions
 	env      *Env
@@ -131,6 +132,16 @@ func (t *TimerCase) Main() {
 		}
 		L.Add("closed", "", "", 0)
 	}()
+	if t.NoSettle {
+		// jumps race the arming of the timer: only the final outcome is determined
+		for _, st := range t.Steps {
+			mock.Set(time.Unix(0, st))
+		}
+		settle()
+		L.AddV("final-clock", "", t.Steps[len(t.Steps)-1])
+		L.Add("end", "", "", 0)
+		return
+	}
 	settle()
 	L.AddV("clock", "", int64(0))
 	for i, st := range t.Steps {
@@ -283,7 +294,12 @@ func genC13(d *Draw) Case {
 	if d.N(4) == 3 {
 		t.CancelAt = d.N(n)
 	}
-	switch d.N(6) {
+	switch d.N(7) {
+	case 6:
+		if t.Kind != "cycle" {
+			t.NoSettle = true
+			t.CancelAt = -1
+		}
 	case 4:
 		t.HostClk = true
 		if t.Kind == "date" {
@@ -369,6 +385,26 @@ func checkC13(cc Case, r *simrt.Result) *Outcome {
 	}
 	if t.HostClk {
 		return checkC13Host(t, r, &vl)
+	}
+	if t.NoSettle {
+		fires := 0
+		for _, ev := range t.env.L.E {
+			if ev.Kind == "fire" {
+				fires++
+			}
+		}
+		wantN := 0
+		if t.Steps[len(t.Steps)-1] >= t.DueMs*ms {
+			wantN = 1
+		}
+		if fires != wantN {
+			vl.add("C13/wrong-count", "timer %s fired %d time(s); the clock was moved through %v without pauses while the timer was arming and ended at or past the due time: exactly %d firing is prescribed", t.Spec, fires, t.Steps, wantN)
+		}
+		o.Viol = vl.v
+		o.Nontrivial = true
+		probe(o, "jumps-race-arming", true)
+		o.Sample = map[string]any{"definition": t.Spec, "clock_steps_ns": t.Steps, "noSettle": true, "fired": fires}
+		return o
 	}
 	want, wantClosed := t.expectedFirings()
 	fires := 0
